@@ -256,8 +256,8 @@ class Ctx:
             "broken": self.broken,
         }
         os.makedirs(os.path.join(VERIF, "evidence"), exist_ok=True)
-        if os.environ.get("VERIF_NO_EVIDENCE"):
-            return
+        if os.environ.get("VERIF_NO_EVIDENCE") or os.path.realpath(REPO) != "/repo":
+            return      # runs against a mutated copy (ZIX_REPO=...) never overwrite the evidence of /repo
         with open(os.path.join(VERIF, "evidence", self.pid + ".json"), "w") as f:
             json.dump(ev, f, indent=1)
 
